@@ -147,7 +147,12 @@ func StoresToCellIn(fn *ssa.Function, cell *ssa.Alloc) []*ssa.Store {
 // Wraps reports whether v is built from a value satisfying pred by calls and
 // conversions only (error wrapping, multierror.Append, fmt.Errorf, struct
 // literals converted to interfaces).
-func Wraps(v ssa.Value, pred func(ssa.Value) bool) bool {
+func Wraps(v ssa.Value, pred func(ssa.Value) bool) bool { return WrapsThrough(v, pred, nil) }
+
+// WrapsThrough is Wraps where a call is looked through only if allow says so
+// (nil: every call): with allow = error wrappers only, a value that was
+// formatted into a string on the way no longer counts as carried.
+func WrapsThrough(v ssa.Value, pred func(ssa.Value) bool, allow func(*ssa.Call) bool) bool {
 	seen := map[ssa.Value]bool{}
 	var rec func(v ssa.Value, d int) bool
 	rec = func(v ssa.Value, d int) bool {
@@ -174,6 +179,9 @@ func Wraps(v ssa.Value, pred func(ssa.Value) bool) bool {
 				}
 			}
 		case *ssa.Call:
+			if allow != nil && !allow(x) {
+				return false
+			}
 			for _, a := range x.Call.Args {
 				if rec(a, d+1) {
 					return true
